@@ -263,26 +263,18 @@ def probe_bytewise(chk, drv, example):
                       signature="C18:names:order-is-not-bytewise")
 
 
-# ------------------------------------------------------------------ histories on stored strings
-def part_nameraw(chk, drv, runner, c18):
-    """c18 = the harness module (generators, judge and process are shared with the other history parts)"""
+def raw_pool(chk, runner, size):
+    """stored strings aimed at the case splits, with their texts: from the ISO decoder where ISO gives one, from the
+    extracted model (nku8) otherwise; only strings whose text is valid UTF-8 (calls take UTF-8 keys)"""
     rng = chk.rng
-    quick = chk.tier == "quick"
-    ncases = 220 if quick else 4000
-
-    class RawNameKeys(c18.NameKeys):
-        kind = "nameraw"
-
-    # pool of stored strings; text of ill-formed ones from the extracted model (ISO gives them none)
-    pool = {}
     raws = set()
-    while len(raws) < (500 if quick else 3000):
+    while len(raws) < size:
         r = gen_raw(rng)
         if r[:3] == b"\xef\xbb\xbf":
             try:
                 r[3:].decode("utf-8", "strict")
             except UnicodeDecodeError:
-                continue                     # calls take UTF-8 keys: keep the texts of stored keys valid UTF-8
+                continue
         raws.add(r)
     raws = sorted(raws)
     ill = [r for r in raws if iso_text(r) is None]
@@ -298,7 +290,20 @@ def part_nameraw(chk, drv, runner, c18):
         except UnicodeDecodeError:
             continue
         by_text.setdefault(t, []).append(r)
-    texts = sorted(by_text)
+    return raws, u8, by_text, sorted(by_text), ill
+
+
+# ------------------------------------------------------------------ histories on stored strings
+def part_nameraw(chk, drv, runner, c18):
+    """c18 = the harness module (generators, judge and process are shared with the other history parts)"""
+    rng = chk.rng
+    quick = chk.tier == "quick"
+    ncases = 220 if quick else 4000
+
+    class RawNameKeys(c18.NameKeys):
+        kind = "nameraw"
+
+    raws, u8, by_text, texts, ill = raw_pool(chk, runner, 500 if quick else 3000)
     cases = []
     for j in range(ncases):
         t = rng.choice([3, 3, 4, 5])
@@ -333,3 +338,88 @@ def part_nameraw(chk, drv, runner, c18):
     pc["stored_string_pool"] = len(raws)
     pc["stored_strings_without_iso_text"] = len(ill)
     pc["texts_with_several_spellings"] = sum(1 for t in texts if len(by_text[t]) > 1)
+
+
+# ------------------------------------------------------------------ validate / repair of name trees
+def part_namerepair(chk, drv, runner, c18):
+    """validate(true) on name trees whose stored keys come in every spelling.  A tree whose TEXTS are strictly ascending
+    is valid and left alone; any other (swapped, shuffled, the same text twice - in one or in two spellings -, sorted
+    byte-wise by the stored strings where that differs from the order of the texts: finding C18-F5) is reported and
+    rebuilt: the result must be valid, hold the sorted map over texts of the entries in document order (a later
+    duplicate wins), and be the tree the modelled insert builds with threshold 32."""
+    rng = chk.rng
+    quick = chk.tier == "quick"
+    raws, u8, by_text, texts, ill = raw_pool(chk, runner, 300 if quick else 2000)
+    multi = [t for t in texts if len(by_text[t]) > 1]
+    cases = []
+    for j in range(120 if quick else 2500):
+        t = rng.choice([3, 4, 5])
+        shape = c18.gen_shape(rng, t, rng.randint(0, 2), t)
+        n = c18.shape_count(shape)
+        if n > len(texts):
+            continue
+        mode = rng.choice(["sorted", "swap", "dup-same-spelling", "dup-other-spelling", "shuffle", "bytewise"])
+        ks = sorted(rng.sample(texts, n), key=lambda k: k.encode("utf-8"))
+        stored = [rng.choice(by_text[k]) for k in ks]
+        if mode == "swap" and n >= 2:
+            a = rng.randrange(n - 1)
+            stored[a], stored[a + 1] = stored[a + 1], stored[a]
+        elif mode == "dup-same-spelling" and n >= 2:
+            a = rng.randrange(n - 1)
+            stored[a + 1] = stored[a]
+        elif mode == "dup-other-spelling" and n >= 2 and multi:
+            a = rng.randrange(n - 1)
+            k = rng.choice(multi)
+            sp = rng.sample(by_text[k], 2)
+            stored[a], stored[a + 1] = sp[0], sp[1]
+        elif mode == "shuffle":
+            rng.shuffle(stored)
+        elif mode == "bytewise":
+            stored.sort()
+        items = [(r, 10 + i) for i, r in enumerate(stored)]
+        text, _ = c18.dump_text(shape, list(items), hx)
+        view, _ = c18.dump_text(shape, list(items), lambda r: hx(u8[r]))
+        cases.append((text, view, items, mode))
+    impl = common.run_lines(drv, ["nnrepair name %s" % c[0] for c in cases], shards=4)
+    exp_maps = []
+    for text, view, items, mode in cases:
+        m = {}
+        for r, v in items:
+            m[u8[r]] = v
+        exp_maps.append(sorted(m.items()))
+    mlines = ["nn name 32 L[] %s 1000000" % (";".join("i:%s=%d" % (hx(k), v) for k, v in em) or "-") for em in exp_maps]
+    model = common.run_lines(runner, mlines, shards=4)
+    wf = common.run_lines(runner, ["nnwf name 32 %s" % o for o in impl], shards=4)
+    tie = []
+    nontriv = set()
+    kinds = {}
+    for (text, view, items, mode), o, mo, w, em in zip(cases, impl, model, wf, exp_maps):
+        keys = [u8[r] for r, _ in items]
+        ascending = all(a < b for a, b in zip(keys, keys[1:]))
+        kinds[mode + ("" if ascending else "/invalid")] = kinds.get(mode + ("" if ascending else "/invalid"), 0) + 1
+        res, _, dump = o.partition("@")
+        desc = {"driver_line": "nnrepair name " + text, "damage": mode}
+        if ascending:
+            if res != "V1" or dump != view:
+                chk.violation({"kind": "property-fails-on-implementation", "part": "namerepair", "case": desc,
+                               "why": "validate() of a name tree whose texts are strictly ascending must return true and leave it alone",
+                               "implementation": o[:800]}, signature="C18:namerepair:valid-tree-touched")
+            continue
+        nontriv.add(text)
+        want = "[" + ",".join("%s=%d" % (hx(k), v) for k, v in em) + "]"
+        code, _, iabs = w.partition(":")
+        if not res.startswith("V0") or code != "0" or iabs != want:
+            chk.violation({"kind": "property-fails-on-implementation", "part": "namerepair", "case": desc,
+                           "why": "after validate(repair) the name tree must be valid and hold the sorted map over texts of its entries "
+                                  "(validity code %s)" % code, "implementation": o[:800], "expected_content": want[:400]},
+                          signature="C18:namerepair:result")
+            continue
+        mdump = mo.rsplit("@", 1)[-1] if em else "_[]"
+        if dump != mdump:
+            tie.append((desc, dump, mdump))
+    if tie and not [v for v in chk.violations if not v[1]]:
+        chk.violation({"kind": "correspondence-broken", "correspondence": "corr:C18:names-repair", "differing_cases": len(tie),
+                       "first_case": tie[0][0], "implementation": tie[0][1][:800], "model": tie[0][2][:800]}, no_input=True)
+    chk.count("namerepair", len(cases), nontriv, samples=[{"driver_line": "nnrepair name " + cases[0][0]}])
+    chk.cov["parts"]["namerepair"]["damage_kinds"] = kinds
+    chk.cov["parts"]["namerepair"]["model_differs"] = len(tie)
